@@ -40,6 +40,16 @@ CHECKS = {
             'and top-level / registry-provided counts are unrolled on the real library; multiplicities, reset of counts, untouched outer operations, the full schedule of the '
             'copies (against the model: each copy follows the latest-ending relation leaf), the n*T clause and idempotence are checked on every one.',
             'bounded program spaces; model schedule used only where model and implementation agree as built'),
+    'C07': (MC, '4/C07', 'explicit-state exploration of build programs with measurements vs positional indexer',
+            'All programs of length <= 2 whose entries are measurements (3 qubits x tags), gates or blocks with any body of 1-2 atoms, counts 1..3, measurements created against the '
+            'block\'s own or the outermost registry (plus a second nesting level), modifiers applied: circuit-level and per-qubit indices must be the positions in the listing, '
+            'filters by qubit and by (qubit, tag) exact, tags a partition, the exported measurement record in index order, and indices monotone in start time.',
+            'bounded program spaces; monotonicity only for relation-free programs without channel overlap'),
+    'C08': (MC, '4/C08', 'explicit-state exploration of build programs vs independent Stim translator',
+            'All flat programs of length <= 2 over all 26 operation classes, all N2(2) programs (blocks x counts), a two-level space, an annotation box (every target shape of detector / '
+            'observable / shift, alone and inside a repeated block) and library constructors are exported; the exported program (REPEAT unrolled, fused targets split) must equal the '
+            'reference translation of the listing instruction by instruction, and before/after unrolling agree as required.',
+            'bounded program spaces; reference translator mc/ref/stim_tr.py; Stim trusted as parser/printer'),
 }
 
 
